@@ -3,7 +3,7 @@
    Cond/*Proofs.v; the statements are pinned here. *)
 From Coq Require Import List ZArith Bool String.
 From YV Require Import Cond.Syntax Cond.Sem Cond.Rename Cond.RuleSet Cond.Prec
-  Cond.SemProofs Cond.RuleSetProofs Cond.PrecProofs Cond.Quirks.
+  Cond.SemProofs Cond.RuleSetProofs Cond.PrecProofs Cond.Quirks Cond.QuirksProofs.
 Import ListNotations.
 Local Open Scope Z_scope.
 
@@ -160,13 +160,10 @@ Theorem of_fast_path_equiv_loop_refuted :
 Proof. exact SemProofs.of_fast_path_equiv_loop_refuted. Qed.
 Print Assumptions of_fast_path_equiv_loop_refuted.
 
-(* the model of constant folding through f64 does not preserve the meaning
-   (finding 10): the witness is replayed on the implementation by the harness *)
-Theorem fold_sound_refuted :
-  exists e en, eval en (prefold e) <> eval en e.
-Proof.
-  exists (ECmp Eq (EArith Add (EInt 9007199254740993) (EInt 1)) (EInt 9007199254740994)).
-  exists (mkEnv [] 0 (fun _ => []) [] None (fun _ => false) (fun _ => VUndef) false).
-  vm_compute. discriminate.
-Qed.
-Print Assumptions fold_sound_refuted.
+(* the compiler's constant folding (checked i64 arithmetic since commit
+   8b83ae6a; it went through f64 before: finding 10) never changes the value
+   of a condition; an overflowing constant expression is rejected at compile
+   time and is left unfolded by the model *)
+Theorem fold_sound : forall e en, eval en (prefold e) = eval en e.
+Proof. exact QuirksProofs.fold_sound. Qed.
+Print Assumptions fold_sound.
